@@ -167,7 +167,7 @@ struct FaultCfg {
 	uint64_t t0 = 0, t1 = 0;
 	double p_drop = 0, p_dup = 0, p_delay = 0, p_trunc = 0, p_flip = 0;
 	double p_redeliv = 0;            // queries to port 53 only
-	double p_rd_newid = 0, p_rd_recase = 0, p_rd_altsrc = 0, p_rd_retype = 0, p_rd_altport = 0;
+	double p_rd_newid = 0, p_rd_recase = 0, p_rd_altsrc = 0, p_rd_retype = 0, p_rd_altport = 0, p_rd_again = 0;
 	uint64_t rd_max_delay = 0;
 	uint64_t max_delay = 0;
 	uint64_t dr0 = 0, dr1 = 0; int dr_host = -1;   // drought: every datagram sent by host dr_host in [dr0, dr1) is lost
